@@ -235,6 +235,11 @@ func (x *Exec) externCall(f *frame, in ssa.Instruction, callee *ssa.Function, c 
 			return v, true
 		}
 	}
+	if h, ok := effectExterns[name]; ok {
+		if v, ok := h(x, f, in, args); ok {
+			return v, true
+		}
+	}
 	if v, ok := x.atomicCall(f, in, name, c, args); ok {
 		return v, true
 	}
